@@ -239,7 +239,7 @@ class Evaluator:
             if typ == 'Minus': return a - b
             if typ == 'Times': return a * b
             if typ == 'Divide': return a / b
-            if typ == 'Power': return POW(a, b)
+            if typ == 'Power': return symx.pow_term(a, b)
             if typ == 'And': return b2r(z3.And(a != 0, b != 0))
             if typ == 'Or': return b2r(z3.Or(a != 0, b != 0))
             if typ == 'Equal': return b2r(a == b)
@@ -575,7 +575,14 @@ def out(t):
     """z3 term -> python float when it is a numeral, else SymReal."""
     t = z3.simplify(t)
     if z3.is_rational_value(t):
-        return float(t.as_fraction())
+        fr = t.as_fraction()
+        try:
+            fl = float(fr)
+        except OverflowError:
+            return SymReal(t)
+        import fractions
+        if fractions.Fraction(fl) == fr:  # only exactly representable numerals become python floats
+            return fl
     return SymReal(t)
 
 
